@@ -8,6 +8,9 @@ What is tied (DESIGN §1.3 G, §4 C14):
   record reads listed in LEAVES / EXC_LEAVES, otherwise extraction fails closed.  A renamed key, a
   dropped key or a leaf read from another record field changes the generated term and breaks
   `C14.record_mirrored` / `C14.record_keys`.
+* the value under record.elapsed.seconds as an exact microsecond count over the timedelta's fields
+  (`elapsedSecondsMicros`): `total_seconds()` or an integer expression / 10**6 – an expression that
+  forgets `.days` is ACCEPTED and refuted by `C14.elapsed_seconds_is_total`.
 * the keyword arguments of the `json.dumps` call and the string added to its result
   (`defaultIsStr`, `ensureAscii`, `suffix`).
 * `_serialize_record` is a `@staticmethod` whose body reads only its arguments (`serializeIsPure`): a
@@ -19,7 +22,7 @@ What is tied (DESIGN §1.3 G, §4 C14):
 import ast
 
 from extract_lib import *  # noqa: F401,F403
-from extract_lib import Unsupported, emit, find_func, lean_chars, parse_module
+from extract_lib import Tr, Unsupported, emit, find_func, lean_chars, parse_module
 
 # source text of a leaf (ast.unparse) -> Lean term over (text : PyVal) (record : Record) (exception : PyVal)
 LEAVES = {
@@ -238,6 +241,53 @@ class Evaluator:
         raise Unsupported("block does not end in a return")
 
 
+class _Fold(ast.NodeTransformer):
+    """fold arithmetic on integer literals (`10**6` -> 1000000)"""
+
+    def visit_BinOp(self, node):
+        node = self.generic_visit(node)
+        l, r = node.left, node.right
+        if isinstance(l, ast.Constant) and isinstance(r, ast.Constant) and type(l.value) is int and type(r.value) is int:
+            if isinstance(node.op, ast.Pow) and 0 <= r.value <= 12:
+                return ast.Constant(value=l.value ** r.value)
+            if isinstance(node.op, ast.Mult):
+                return ast.Constant(value=l.value * r.value)
+        return node
+
+
+def elapsed_seconds_kernel(node):
+    """the value under record.elapsed.seconds as an exact number of microseconds over the fields of the
+    timedelta `record['elapsed']`: either `.total_seconds()` (CPython, Json.TimeDelta.totalMicros) or an
+    integer expression over .days/.seconds/.microseconds divided (true division) by 10**6.  None if neither."""
+    import copy
+    if ast.unparse(node) == "record['elapsed'].total_seconds()":
+        return "elapsed.totalMicros"
+    node = _Fold().visit(copy.deepcopy(node))
+    if not (isinstance(node, ast.BinOp) and isinstance(node.op, ast.Div) and isinstance(node.right, ast.Constant)
+            and node.right.value == 1000000 and type(node.right.value) is int):
+        return None
+    x = ast.Subscript(value=ast.Name(id="record", ctx=ast.Load()), slice=ast.Constant(value="elapsed"), ctx=ast.Load())
+    num = _Replace(x, "elapsed").visit(node.left)
+    env = {"elapsed.days": ("elapsed.days", "int"), "elapsed.seconds": ("elapsed.seconds", "int"),
+           "elapsed.microseconds": ("elapsed.microseconds", "int")}
+    term, typ = Tr(env).tr(num)
+    if typ != "int":
+        return None
+    return term
+
+
+def node_at(d, path):
+    for k in path:
+        if not isinstance(d, ast.Dict):
+            return None
+        nxt = None
+        for kk, vv in zip(d.keys, d.values):
+            if isinstance(kk, ast.Constant) and kk.value == k:
+                nxt = vv
+        d = nxt
+    return d
+
+
 def same(a, b):
     return ast.dump(a) == ast.dump(b)
 
@@ -307,7 +357,14 @@ def generate():
         class ExcLeaves(dict):
             pass
 
+        elapsed_node = node_at(val.args[0], ["record", "elapsed", "seconds"])
+        elapsed_kernel = elapsed_seconds_kernel(elapsed_node) if elapsed_node is not None else None
+        if elapsed_kernel is None:
+            raise Unsupported("record.elapsed.seconds is neither total_seconds() nor <int expr over the timedelta fields> / 10**6")
+
         def leaf_hook(node):
+            if node is elapsed_node:
+                return "record.elapsedSeconds"
             sp = split_exception_summary(node)
             if sp is None:
                 return None
@@ -341,6 +398,9 @@ def generate():
         body += "def exceptionSummary (exception : ExcInfo) : PyVal :=\n  %s\n\n" % exc_term
         body += "/-- the `serializable` dict literal of `Handler._serialize_record` -/\n"
         body += "def serializable (text : PyVal) (record : Record) (exception : PyVal) : PyVal :=\n  %s\n\n" % ser_term
+        body += "/-- what is written under record.elapsed.seconds, as an exact number of microseconds over the fields\n"
+        body += "    of the timedelta `record[\"elapsed\"]` (source: %s) -/\n" % ast.unparse(elapsed_node).replace("-/", "- /")
+        body += "def elapsedSecondsMicros (elapsed : TimeDelta) : Int := %s\n\n" % elapsed_kernel
         body += "/-- `json.dumps(..., default=str)` -/\ndef defaultIsStr : Bool := %s\n" % ("true" if default_is_str else "false")
         body += "/-- `json.dumps(..., ensure_ascii=…)` (json's default is True) -/\ndef ensureAscii : Bool := %s\n" % (
             "true" if ensure_ascii else "false")
